@@ -139,7 +139,8 @@ impl<'a> TransportFeedback<'a> {
         if parser::parse_count(self.data) != F::FCI_FORMAT {
             return Err(RtcpParseError::WrongImplementation);
         }
-        F::parse(&self.data[12..])
+        let padding = self.padding().unwrap_or(0) as usize;
+        F::parse(&self.data[12..self.data.len() - padding])
     }
 }
 
@@ -335,7 +336,8 @@ impl<'a> PayloadFeedback<'a> {
         if parser::parse_count(self.data) != F::FCI_FORMAT {
             return Err(RtcpParseError::WrongImplementation);
         }
-        F::parse(&self.data[12..])
+        let padding = self.padding().unwrap_or(0) as usize;
+        F::parse(&self.data[12..self.data.len() - padding])
     }
 }
 
